@@ -542,6 +542,20 @@ def forall_elim_facts(exprs):
     nths = collect_apps(exprs, ('nth',))
     lookups = collect_apps(exprs, ('lookup',))
     out = []
+    # aliases: a path fact `x == t` (x a constant) lets nth terms over x stand for nth terms over t
+    alias = {}
+    for e in exprs:
+        stack = [e]
+        while stack:
+            g = stack.pop()
+            if z3.is_and(g):
+                stack.extend(g.children())
+            elif z3.is_eq(g) and g.num_args() == 2:
+                for x, t in ((g.arg(0), g.arg(1)), (g.arg(1), g.arg(0))):
+                    if z3.is_const(x) and x.decl().kind() == z3.Z3_OP_UNINTERPRETED and z3.is_app(t) and t.num_args() > 0:
+                        alias.setdefault(t.get_id(), []).append(x.get_id())
+                        if t.decl().name() in ('List', 'Dict', 'Tuple', 'Set') and t.num_args() == 1:
+                            alias.setdefault(t.arg(0).get_id(), []).append(x.get_id())
     for a in alls:
         fl = ForallList._made[a.decl().name()]
         l = a.arg(0)
@@ -549,6 +563,8 @@ def forall_elim_facts(exprs):
         lids = {l.get_id()}
         if z3.is_app(l) and l.decl().name() in ('items', 'ditems', 'titems', 'sitems') and l.num_args() == 1:
             lids.add(l.arg(0).get_id())     # items(ite(c, x, y)) is built from x as much as from items(x)
+        for i in list(lids):
+            lids.update(alias.get(i, ()))
         for t in nths:
             # indices of nth terms over this list or over a list built from it (vals/keys/ite/app ...) are tried on it
             if lids & _subterm_ids(t.arg(0)):
